@@ -169,8 +169,38 @@ pub fn with_persistent_engine<R>(f: impl FnOnce() -> R) -> R {
     r
 }
 
+/// Leaf evaluations per poll of the time limit, measured once per process on reference positions.
+/// The monitors' budgets are counted in polls; an engine that polls much more rarely than the one
+/// these budgets were sized for (e.g. once per 64 nodes) would make every large budget cost
+/// proportionally more work. The measure is logical (no clock), so it is deterministic.
+pub fn evals_per_poll() -> f64 {
+    static R: std::sync::OnceLock<f64> = std::sync::OnceLock::new();
+    *R.get_or_init(|| {
+        let mut evals = 0u64;
+        let mut polls = 0u64;
+        for fen in ["r1bq1rk1/pp2bppp/2n1pn2/2pp4/3P1B2/2PBPN2/PP1N1PPP/R2QK2R w KQ - 0 8", "8/2p5/3p4/KP5r/1R3p1k/8/4P1P1/8 w - - 0 1", "r3k2r/p1ppqpb1/bn2pnp1/3PN3/1p2P3/2N2Q1p/PPPBBPPP/R3K2R w KQkq - 0 1"] {
+            let Ok(b) = real::parse(fen) else { continue };
+            let t = CountingTimeout::new(3000);
+            let mut e = Engine::default();
+            let _ = catch_unwind(AssertUnwindSafe(|| e.search(&b, &ThreeFold::new(), &t)));
+            let _ = verif::take_events();
+            evals += e.moves_evaluated;
+            polls += t.polls.get().max(1);
+        }
+        evals as f64 / polls.max(1) as f64
+    })
+}
+
+/// Work factor relative to the engine the budgets were sized for (about 0.5 leaf evaluations per poll).
+pub fn budget_scale() -> f64 {
+    let r = evals_per_poll() / 0.5;
+    if r > 4.0 { r } else { 1.0 }
+}
+
 pub fn run_search(board: &Board, tf: &ThreeFold, expire_at: u64, positional: bool) -> Outcome {
     let _ = verif::take_events();
+    // large budgets only bound the work; they shrink when one poll stands for many more nodes
+    let expire_at = if expire_at >= 20_000 && budget_scale() > 1.0 { ((expire_at as f64 / budget_scale()) as u64).max(2_000) } else { expire_at };
     let t = CountingTimeout::new(expire_at);
     let slot = SLOT.with(|x| x.get());
     let reuse = REUSE_ON.with(|f| f.get());
